@@ -13,7 +13,7 @@ SPEC = {
     }],
     'rule': 'random account histories on a real node (6 quick, 60 thorough): contact requests, seed reset, blocks, up to two joined '
             'multi-member groups with metadata and messages and a second account writing concurrently and merged (several heads); '
-            'exported by the real service.export; the archive is checked file by file (both private keys, every entry of every log '
+            'exported by the real ServiceExportData handler (stub stream) around service.export; the archive is checked file by file (both private keys, every entry of every log '
             'byte-for-byte equal to the DAG node and hashing to its name, heads equal to the current heads); restored by the real '
             'RestoreAccountExport into fresh in-memory nodes without network: as exported (must give the same keys, entry sets, '
             'heads and MetadataStore getters for every group), onto a store with an account, with entry bytes flipped / swapped '
